@@ -206,6 +206,26 @@ def Desc.agree (d : Desc) : Bool := d.agreeWith compat
 /-- weak agreement: loses nothing and invents nothing (stability may fail for a nil named map) -/
 def Desc.agreeW (d : Desc) : Bool := d.agreeWith compatW
 
+/-- a shape whose null entries are decoded into pointers to zero wrappers that cannot be marshalled
+    (wrapper `w` neither checks `Value` itself nor has a nil-tolerant value marshaller) -/
+def entryPanics (T : List Desc) : Shape → Bool
+  | .ref w => (T.find? (fun d => d.name == w)).any (fun d => !d.valueNilSafe)
+  | _ => false
+
+def shapePanics (T : List Desc) : Shape → Bool
+  | .pmap s => entryPanics T s || shapePanics T s
+  | .map s => shapePanics T s
+  | .list s => shapePanics T s
+  | _ => false
+
+/-- some position of some kind turns a null entry into a panic of the marshaller (finding F-C03-2, repaired:
+    `no_null_entry_panic` proves this false of the table) -/
+def nullEntryPanicReachable (T : List Desc) : Bool :=
+  T.any (fun d => match d.template with
+    | .struct => d.fields.any (fun f => shapePanics T f.shape)
+    | .maplike => entryPanics T (match d.valueShape with | .map s => s | s => s)
+    | _ => false)
+
 /-! ### spec side: normal form, written from the property text -/
 
 /-- "redundant default": a value that says nothing more than the absence of the key -/
@@ -243,7 +263,7 @@ def refString (o : Obj) : Option String :=
   | some (.str s) => if s == "" then none else some s
   | _ => none
 
-def isExtKey (k : String) : Bool := k.startsWith "x-"
+def isExtKey (k : String) : Bool := "x-".toList.isPrefixOf k.toList
 
 /-- `Types`: a string becomes a one-element list and is written back as a string; a one-element list is
     written as a string; the empty list is written as null -/
